@@ -12,15 +12,19 @@ import (
 	"verifharness/props/c03"
 	"verifharness/props/c04"
 	"verifharness/props/c05"
+	"verifharness/props/c06"
 	"verifharness/props/c07"
 	"verifharness/props/c08"
 	"verifharness/props/c12"
 	"verifharness/props/c17"
 	"verifharness/props/c18"
 	"verifharness/props/c19"
+	"verifharness/props/c20"
 )
 
 var props = map[string]func(*core.Ctx) int{
+	"C20": c20.Run,
+	"C06": c06.Run,
 	"C08": c08.Run,
 	"C07": c07.Run,
 	"C19": c19.Run,
